@@ -22,7 +22,8 @@ import (
 	"verifharness/hx"
 )
 
-// c14.sched  nHosts maxConns maxFails expiry unhealthyBits nThreads events
+// c14.sched  nHosts maxConns maxFails expiry unhealthyBits nThreads events retry
+//   retry   1 = try_duration 30s, try_interval 1ms: after a failed attempt the request selects again (0 = try_duration 0)
 //   expiry  0 fail_timeout 0 (failures not counted) | 1 fail_timeout 1h (never expires within the run) | 2 fail_timeout 15ms (awaited at once)
 //           3 fail_timeout 300ms: failures are recorded at least 120ms apart and the event "w" waits for the oldest to expire
 //   events  comma list of t:x : request t runs to its next blocking point; x = preferred backend (when it selects) or
@@ -166,9 +167,10 @@ func c14Wait(th *c14Thread, states ...int32) bool {
 }
 
 func c14Eval(f []string) (string, []string) {
-	if len(f) != 7 {
+	if len(f) != 8 {
 		return "bad-case", nil
 	}
+	retry := f[7] == "1"
 	nHosts, _ := strconv.Atoi(f[0])
 	maxConns, _ := strconv.Atoi(f[1])
 	maxFails, _ := strconv.Atoi(f[2])
@@ -188,7 +190,11 @@ func c14Eval(f []string) (string, []string) {
 	for i := 0; i < nHosts; i++ {
 		fmt.Fprintf(&cfg, " h%d.test:80", i)
 	}
-	fmt.Fprintf(&cfg, " {\n policy verif_barrier %s\n max_conns %d\n max_fails %d\n fail_timeout %s\n header_upstream +X-Verif-Tag t\n}\n", id, maxConns, maxFails, ft)
+	fmt.Fprintf(&cfg, " {\n policy verif_barrier %s\n max_conns %d\n max_fails %d\n fail_timeout %s\n header_upstream +X-Verif-Tag t\n", id, maxConns, maxFails, ft)
+	if retry {
+		cfg.WriteString(" try_duration 30s\n try_interval 1ms\n")
+	}
+	cfg.WriteString("}\n")
 	ups, err := proxy.NewStaticUpstreams(casketfile.NewDispenser("Testfile", strings.NewReader(cfg.String())), "")
 	if err != nil || len(ups) != 1 {
 		return fmt.Sprintf("setup-error:%v", err), nil
@@ -225,6 +231,36 @@ func c14Eval(f []string) (string, []string) {
 		}
 		return label + "|" + strings.Join(cs, ",") + "|" + strings.Join(fs, ",") + "|" + strings.Join(is, ",")
 	}
+	anyAvail := func() bool {
+		for _, h := range pool {
+			if h.Available() {
+				return true
+			}
+		}
+		return false
+	}
+	// arrive waits until a request that is on its way to Select is at a blocking point. With retries on, a
+	// request that finds no backend available keeps polling on its own (try_interval) and never gets there:
+	// reported as "free" once that is the stable situation (every other request is blocked).
+	arrive := func(th *c14Thread, states ...int32) string {
+		deadline := time.Now().Add(5 * time.Second)
+		grace := time.Now().Add(40 * time.Millisecond)
+		for {
+			st := th.get()
+			for _, w := range states {
+				if st == w {
+					return "at"
+				}
+			}
+			if retry && time.Now().After(grace) && !anyAvail() {
+				return "free"
+			}
+			if time.Now().After(deadline) {
+				return "stuck"
+			}
+			time.Sleep(20 * time.Microsecond)
+		}
+	}
 	start := func(th *c14Thread) {
 		th.set(c14Running)
 		go func() {
@@ -241,12 +277,16 @@ func c14Eval(f []string) (string, []string) {
 	var snaps []string
 	tags := map[string]bool{}
 	stuck := func(where string) (string, []string) {
-		return "stuck:" + where + ":" + strings.Join(snaps, ";"), []string{"stuck"}
+		return strings.Join(append(snaps, "stuck:"+where), ";"), []string{"stuck"}
 	}
 	selectStep := func(th *c14Thread, x int) (string, bool) {
 		th.choose <- x
 		idx := <-th.ack
 		if idx < 0 {
+			if retry {
+				// the request goes on polling by itself
+				return "none", true
+			}
 			if !c14Wait(th, c14Done) {
 				return "", false
 			}
@@ -298,8 +338,35 @@ func c14Eval(f []string) (string, []string) {
 		switch th.get() {
 		case c14NotStarted:
 			start(th)
-			if !c14Wait(th, c14AtBarrier, c14Done) {
+			switch arrive(th, c14AtBarrier, c14Done) {
+			case "stuck":
 				return stuck("start")
+			case "free":
+				label = "none"
+			}
+			if label != "" {
+				break
+			}
+			if th.get() == c14Done {
+				th.reported = true
+				label = "none"
+				break
+			}
+			l, ok := selectStep(th, x)
+			if !ok {
+				return stuck("select")
+			}
+			label = l
+		case c14Running:
+			// retries on: the request is between a failed attempt / an empty Select and its next Select
+			switch arrive(th, c14AtBarrier, c14Done) {
+			case "stuck":
+				return stuck("retry")
+			case "free":
+				label = "none"
+			}
+			if label != "" {
+				break
 			}
 			if th.get() == c14Done {
 				th.reported = true
@@ -328,7 +395,7 @@ func c14Eval(f []string) (string, []string) {
 				maxSel = inWindow
 			}
 			th.goOn <- struct{}{}
-			if !c14Wait(th, c14InTransport, c14AtBarrier, c14Done) {
+			if arrive(th, c14InTransport, c14AtBarrier, c14Done) == "stuck" {
 				return stuck("go-on")
 			}
 			if th.get() == c14InTransport {
@@ -345,10 +412,19 @@ func c14Eval(f []string) (string, []string) {
 			h := int(atomic.LoadInt32(&th.host))
 			o := x % 5
 			th.finish <- o
-			if !c14Wait(th, c14Done) {
-				return stuck("finish")
+			if retry && o == 1 {
+				tags["retried-after-failure"] = true
+				// the attempt ends; the request records the failure and comes back to Select
+				if arrive(th, c14AtBarrier, c14Done) == "stuck" {
+					snaps = append(snaps, snapshot("fin:"+strconv.Itoa(h)+":"+c14Outcomes[o]))
+					return stuck("finish")
+				}
+			} else {
+				if !c14Wait(th, c14Done) {
+					return stuck("finish")
+				}
+				th.reported = true
 			}
-			th.reported = true
 			label = "fin:" + strconv.Itoa(h) + ":" + c14Outcomes[o]
 			tags["outcome-"+c14Outcomes[o]] = true
 			if o == 1 && expiry == "3" {
@@ -419,7 +495,7 @@ func c14Gen(g *hx.Gen) {
 		for i, e := range evs {
 			parts[i] = fmt.Sprintf("%d:%d", e[0], e[1])
 		}
-		g.Case(strconv.Itoa(nHosts), strconv.Itoa(mc), strconv.Itoa(mf), strconv.Itoa(expiry), unh, strconv.Itoa(nThreads), strings.Join(parts, ","))
+		g.Case(strconv.Itoa(nHosts), strconv.Itoa(mc), strconv.Itoa(mf), strconv.Itoa(expiry), unh, strconv.Itoa(nThreads), strings.Join(parts, ","), "0")
 	}
 	// 1. exhaustive: two requests, every interleaving of their three steps (select, go on, end), both backends or only one up,
 	//    caps 0..2, each pair of outcomes ok/error
@@ -492,7 +568,78 @@ func c14Gen(g *hx.Gen) {
 				parts = append(parts, fmt.Sprintf("%d:0", t))
 			}
 		}
-		g.Case("2", strconv.Itoa(r.Intn(3)), strconv.Itoa(mf), "3", "00", strconv.Itoa(nThreads), strings.Join(parts, ","))
+		g.Case("2", strconv.Itoa(r.Intn(3)), strconv.Itoa(mf), "3", "00", strconv.Itoa(nThreads), strings.Join(parts, ","), "0")
+	}
+	// 1c. retries on (try_duration 30s): a request whose attempt failed selects again. Backends stay up
+	//     (failures not counted, or max_fails far above the number of failures) and there are never more
+	//     requests than slots, so a retrying request always finds a backend and comes back to the barrier.
+	//     The counters are compared after every attempt's end, i.e. while the request is still running.
+	emitRetry := func(nHosts, mc, expiry, nThreads int, evs [][2]int) {
+		for round := 0; round < 4*nThreads+4; round++ {
+			for t := 0; t < nThreads; t++ {
+				evs = append(evs, [2]int{t, 0})
+			}
+		}
+		parts := make([]string, len(evs))
+		for i, e := range evs {
+			parts[i] = fmt.Sprintf("%d:%d", e[0], e[1])
+		}
+		g.Case(strconv.Itoa(nHosts), strconv.Itoa(mc), "50", strconv.Itoa(expiry), strings.Repeat("0", nHosts), strconv.Itoa(nThreads), strings.Join(parts, ","), "1")
+	}
+	// exhaustive: one or two requests, two backends, caps 0..2; request 0 fails k times on the preferred
+	// backend(s) before it answers, request 1 runs in between at every position
+	for mc := 0; mc <= 2; mc++ {
+		for _, expiry := range []int{0, 1} {
+			for fails := 1; fails <= 3; fails++ {
+				for prefs := 0; prefs < 1<<uint(fails+1); prefs++ {
+					var a [][2]int
+					for i := 0; i <= fails; i++ {
+						out := 1
+						if i == fails {
+							out = 0
+						}
+						a = append(a, [2]int{0, (prefs >> uint(i)) & 1}, [2]int{0, 0}, [2]int{0, out})
+					}
+					emitRetry(2, mc, expiry, 1, a)
+					if mc != 1 || true {
+						// a second request takes its three steps after the i-th step of the first
+						for pos := 0; pos <= len(a); pos += 2 {
+							if !g.Thorough() && (pos+prefs+fails)%3 != 0 {
+								continue
+							}
+							b := append([][2]int{}, a[:pos]...)
+							b = append(b, [2]int{1, prefs & 1}, [2]int{1, 0})
+							b = append(b, a[pos:]...)
+							b = append(b, [2]int{1, 0})
+							emitRetry(2, mc, expiry, 2, b)
+						}
+					}
+				}
+			}
+		}
+	}
+	// random: 2..3 backends, requests up to the number of slots, errors frequent
+	R := 300
+	if g.Thorough() {
+		R = 5000
+	}
+	for it := 0; it < R; it++ {
+		nHosts := 2 + r.Intn(2)
+		mc := r.Intn(3)
+		nThreads := 1 + r.Intn(4)
+		if mc > 0 && nThreads > nHosts*mc {
+			nThreads = nHosts * mc
+		}
+		n := nThreads*3 + r.Intn(nThreads*6)
+		evs := make([][2]int, n)
+		for i := range evs {
+			x := r.Intn(5)
+			if r.Chance(2, 3) {
+				x = r.Intn(2)
+			}
+			evs[i] = [2]int{r.Intn(nThreads), x}
+		}
+		emitRetry(nHosts, mc, r.Intn(2), nThreads, evs)
 	}
 	// 2. seeded random schedules: 2..3 backends, 2..5 requests (thorough: up to 6), all outcome kinds
 	N := 1200
